@@ -548,6 +548,11 @@ func c12Case(c *core.Ctx, idx int) {
 	cfgs := instCfgs()
 	protoCfg := cfgs[3]
 	protoCfg.Null, protoCfg.JSONAny = false, false
+	if idx%41 == 13 {
+		// containers whose entry counts sit on the edges of the 1- and 2-byte varints, in proto mode
+		countedContainers(c, idx, protoCfg, instNew(protoCfg))
+		return
+	}
 	r := c.RandFor(idx, "type")
 	tg := &gen.TG{R: r, C: protoCfg, Lib: true, Skipped: true, JSONTags: true, AllMapsProto: true, NoIndexZero: idx%4 != 0}
 	typ := tg.Struct(3)
